@@ -6,5 +6,5 @@ set -e
 V=$(cd "$(dirname "$0")/.." && pwd)
 D=${LKDIR:-$V/lean}
 mkdir -p "$D"
-for n in ColoVerif Driver lakefile.toml; do [ -e "$D/$n" ] || ln -s "$V/lean/$n" "$D/$n"; done
+python3 -c "import sys; sys.path.insert(0,\"$V/tools\"); import common; common.lean_dir()"
 cd "$D" && exec lake "$@"
